@@ -1,5 +1,5 @@
 (* Oracle3.v — protocol operations for the serializer model. *)
-From SJ Require Import Model.Base Model.RefTables Spec.Json Model.Tape Model.Iter Model.WF Model.Serialize Model.Oracle Model.Oracle2.
+From SJ Require Import Model.Base Model.RefTables Spec.Json Model.Tape Model.Iter Model.WF Model.Serialize Model.FloatFmt Model.Marshal Model.Oracle Model.Oracle2.
 From Coq Require Strings.String.
 Import String.StringSyntax.
 Open Scope string_scope.
@@ -70,6 +70,38 @@ Definition handle3 (req : bytes) : bytes :=
         | Crash => lit "sercrash"
         | OutOfFuel => lit "fuel"
         end
+      | _ => lit "badargs"
+      end
+    else if bytes_eqb op (lit "marshal") then
+      (* marshal T S M k mode : 0 = iterator after k AdvanceInto calls;
+         1 = element restricted by AdvanceIter from the iterator after k-1 calls;
+         2 = Array.MarshalJSON of the array at position k *)
+      match args with
+      | [at_; as_; am; ak; amode] =>
+        let pj := mk_pj at_ as_ am in
+        let k := N.to_nat (N_of_dec ak) in
+        let mode := N_of_dec amode in
+        let res : outcome bytes :=
+          if mode =? 0 then do i <- nth_into k pj (iter0 pj); marshal_iter pj i
+          else if mode =? 1 then
+            do i <- nth_into (pred k) pj (iter0 pj);
+            do r <- advance_iter pj i;
+            match r with
+            | (_, Some el, _) => marshal_iter pj el
+            | (_, None, _) => Err
+            end
+          else do i <- nth_into k pj (iter0 pj); do a <- iter_array i; marshal_array pj a in
+        match res with
+        | Ok s => lit "ok " ++ show_bytes s
+        | Err => lit "err"
+        | Crash => lit "crash"
+        | OutOfFuel => lit "fuel"
+        end
+      | _ => lit "badargs"
+      end
+    else if bytes_eqb op (lit "float") then
+      match args with
+      | [a] => match fmt_float (N_of_hex a) with Some s => lit "ok " ++ s | None => lit "err" end
       | _ => lit "badargs"
       end
     else lit "badop"
